@@ -298,7 +298,15 @@ def correspondence(ctx):
 # ---- oracle ----------------------------------------------------------------------------------------------
 def check_case(case):
     if "steps" in case:
+        # define / clear / use steps executed in ONE fresh library state (run_session starts with core.fresh_impl())
         return ul.oracle_session(case["steps"])
+    if "session" in case:
+        # several (history, tree) cases evaluated one after the other in ONE fresh library state; the last one is judged
+        core.fresh_impl()
+        why = None
+        for c in case["session"]:
+            why = check_case(c)
+        return "after {} earlier operation(s) in the same interpreter: {}".format(len(case["session"]) - 1, why) if why else None
     why = ul.oracle_check(case.get("history", []), case["tree"], case.get("frac", False))
     if why:
         return why
@@ -307,15 +315,28 @@ def check_case(case):
     return None
 
 
-def report(case, why):
+def fails_alone(case):
+    core.fresh_impl()
+    return check_case(case) is not None
+
+
+def report(case, why, journal=()):
     if "steps" in case:
-        small = {"steps": ul.shrink_session(case["steps"])}
+        small = {"steps": ul.shrink_session(case["steps"])}      # every candidate starts from a fresh library state
         return Violation(ID, "session", small, check_case(small) or why)
+    if not fails_alone(case):
+        # fine on its own: it fails because of what ran before it in this process -> the earlier cases become part of the input
+        if check_case({"session": list(journal) + [case]}) is None:
+            return Violation(ID, "tree", case, why + " (only after the cases of this run, not reproduced from a fresh library state)")
+        prefix = core.minimize_session(list(journal), lambda p: check_case({"session": p + [case]}) is not None)
+        sess = {"session": prefix + [case]}
+        return Violation(ID, "tree", sess, check_case(sess) or why)
 
     def fails(h, t):
-        return check_case(dict(case, history=h, tree=t)) is not None
+        return fails_alone(dict(case, history=h, tree=t))
     h, t = ul.shrink_case(case.get("history", []), case["tree"], fails)
     small = dict(case, history=h, tree=t)
+    core.fresh_impl()
     return Violation(ID, "tree", small, check_case(small) or why)
 
 
@@ -333,13 +354,15 @@ def search(ctx, suspects, budget):
             todo.append({"history": c.get("history", []), "tree": t, "frac": False})
         elif c and s.get("kind") == "session":
             todo.append({"steps": c["steps"]})
-    todo += [c["case"] for c in ul.load_corpus(ID) if c.get("kind") in ("tree", "session")]
+    todo += [c["case"] for c in ul.load_corpus(ID) if c.get("kind") in ("tree", "session")]    # incl. {"session": [...]} journals
     todo += [{"steps": st} for st in ul.session_templates()]
     scope = small_scope_cases()
     stride = max(1, len(scope) // ctx.n(1200, 6000))
     todo += [{"history": h, "tree": t, "frac": False, "clear": i % 7 == 0} for i, (h, t) in enumerate(scope[::stride])]
     n = 0
     n_sessions = 0
+    core.fresh_impl()
+    journal = []          # the (history, tree) cases judged since the library was last imported afresh
     while len(out) < 3:
         if todo:
             case = todo.pop(0)
@@ -354,11 +377,20 @@ def search(ctx, suspects, budget):
             case = {"history": h, "tree": t, "frac": rng.random() < 0.08, "clear": rng.random() < 0.15}
         n += 1
         why = check_case(case)
+        own_state = "steps" in case or "session" in case     # these start from a fresh library state themselves
         if why:
-            v = report(case, why)
+            v = report(case, why, journal) if not "session" in case else Violation(ID, "tree", case, why)
             if v.key not in seen:
                 seen.add(v.key)
                 out.append(v)
+        if why or own_state:
+            core.fresh_impl()      # nothing a session (or a report) left behind may leak into the next cases
+            journal = []
+        else:
+            journal.append(case)
+            if len(journal) > 400:
+                core.fresh_impl()
+                journal = []
     ul.reset_state()
     ctx.notes.append("oracle: {} cases checked against an independent Fraction expansion, of which {} define/clear/use "
                      "sessions (every use judged under the definitions in force at that step)".format(n, n_sessions))
